@@ -121,6 +121,8 @@ def main():
         finally:
             rc, out = sh("git -C /repo checkout -- . && git -C /repo status --short")
             print("repo restored:", out.strip() or "clean")
+            # evidence written while a mutant was applied must not be kept
+            sh("git -C /verif checkout -- evidence/ 2>/dev/null; rm -rf /verif/replays")
         meta["checks_on_mutant"] = verdicts
     json.dump(meta, open(meta_p, "w"), indent=1)
     return 0
